@@ -123,6 +123,12 @@ class _NoInline(Exception):
     pass
 
 
+def _preorder_nodes(node):
+    yield node
+    for c in ast.iter_child_nodes(node):
+        yield from _preorder_nodes(c)
+
+
 def _terminates(stmts) -> bool:
     """Every path through the block ends in raise/return/continue/break (syntactic)."""
     if not stmts:
@@ -258,7 +264,7 @@ class Inliner:
             return self.cache[key]
         if key in self.active or len(self.active) >= MAX_DEPTH:
             return f.raw
-        from .normalize import scalar_replace, desugar_tables, matchify, might_apply, might_dispatch, might_matchify, might_unroll, normalize_formats, unroll_literal_loops
+        from .normalize import merge_twin_locals, split_parallel_assign, scalar_replace, desugar_tables, matchify, might_apply, might_dispatch, might_matchify, might_unroll, normalize_formats, unroll_literal_loops
 
         cand = self._has_candidate(f.raw)
         fmt = might_apply(f.raw) or might_dispatch(f.raw, f.module.top) or might_unroll(f.raw, f.module.top) or might_matchify(f.raw) or cand
@@ -270,6 +276,11 @@ class Inliner:
         try:
             node = copy.deepcopy(f.raw)
             changed = self._block_owner(node, f, node) if cand else False
+            expanded = changed
+            if changed:
+                # clean-up that only makes sense on expanded code (the source as written is never touched by it)
+                split_parallel_assign(node)
+                merge_twin_locals(node)
             if fmt or changed:
                 changed |= scalar_replace(node, f.module)
                 changed |= unroll_literal_loops(node, f.module.top)
@@ -279,6 +290,15 @@ class Inliner:
             out = node if changed else f.raw
             if changed:
                 ast.fix_missing_locations(out)
+            if changed and expanded:
+                # expanded statements carry the line numbers of the helper they came from; several rules order
+                # statements by line.  Keep the real line for reports (`_srcline`) and make `lineno` follow document order.
+                base = getattr(out, "lineno", 1)
+                for k, n in enumerate(_preorder_nodes(out)):
+                    if hasattr(n, "lineno"):
+                        n._srcline = n.lineno
+                        n.lineno = base + k
+                        n.end_lineno = n.lineno
             out = self._roles(f, out)
             res = self._residual_calls(out, f)
             if res:
